@@ -94,6 +94,24 @@ def c05_grid(ctx, case):
                   atol=1e-12 * max(1.0, float(np.max(np.abs(u)))) if u.size else 0, sig=sig)
 
 
+def enum_fixed(tier):
+    for row, p, N, cplx, nfft in est.grid_points(rows=ROWS):
+        for c in (2, 3):
+            for toggle in (False, True):
+                yield {"row": row, "x": est.sanitize(row, est.grid_x(N, cplx, 31)), "params": p, "nfft": nfft, "c": c, "off": "py", "toggle": toggle}
+        if row not in ("Periodogram",) and not row.startswith("mtm_"):
+            # grids shorter than the record (admissible for the rows that do not transform the record itself)
+            lo = min_short = max(est.min_nfft(row, N, p), 8)
+            yield {"row": row, "x": est.sanitize(row, est.grid_x(N, cplx, 32)), "params": p, "nfft": lo + 1, "c": 4, "off": "np", "toggle": False}
+
+
+@sub("C05.fixed", enum=enum_fixed, exhaustive=True, shards_quick=4, shards_thorough=4,
+     doc="fixed grid, independent of the seed: every row x N in {17, 40, 150, 301} x real/complex x NFFT in {N, N+3, 2N} x c in {2, 3} x "
+         "scaling off at construction / switched off on a computed object; plus one grid shorter than the record per parametric row")
+def c05_fixed(ctx, case):
+    c05_grid(ctx, case)
+
+
 # ---- the library's own constants as explicit NFFT values --------------------------------------------------------------
 # 4096 is the default NFFT of the functional estimators and 256 the floor of pmtm's default: an explicit request for exactly
 # that value must not be mistaken for "not given", also when the record is longer than it (parametric rows: NFFT < N admissible)
